@@ -4,6 +4,15 @@ import json, subprocess, sys
 
 # id -> (built?, level, technique, level text, level note, design ref)
 CHECKS = {
+ "C02": (True, "exploration", "reference-model monitor: grammar-generated module sets (model kept as ground truth, unique mangling-stable names) compiled by the real compiler; syn projection of every generated item compared structurally with the model; by-value containment graph of generated items checked for cycles",
+         "Held on the compilations observed: for every SEQUENCE/SET/CHOICE/SEQUENCE OF/SET OF of the generated inputs (top-level and anonymous to depth 4, incl. class-field-typed components and module-qualified references) the member list (names, count, order), each member's Rust type, Option/default/Box/set markers agree with the model, and the generated item graph is acyclic by value. Sampling of an infinite input space.",
+         "Trusted: oracle.rs reference model (type correspondence table, X.680 component order), syn projection. Only warning-free Ok compilations are claims. Integer width is C06's subject, the exact placement of Box is free (sufficiency + no Box off a cycle).", "DESIGN.md §4 C02"),
+ "C03": (True, "fault_enumeration", "reference-model monitor at attribute level: exhaustive enumeration of the property's product space (default x keyword x class x position x tagged kind, 1344 legal points + automatic-tagging sub-space) + random grammar compositions; #[rasn(tag(..))]/automatic_tags of the syn projection compared with X.680 31.2.7 / 25.3 / 29.2",
+         "Every legal point of the stated product space is compiled and the emitted tag class, number, explicit marking and automatic_tags are compared with the model; random larger compositions are sampled. Attribute level only: the DER-level observation (explicit wrappers of CHOICE-typed components, delegate newtypes around CHOICE/open types) is not built in this revision and those markings are not judged.",
+         "Trusted: oracle.rs::check_tag (30 lines of X.680 31.2.7), syn projection. Two genuine defects are pinned by the repository's own tests and listed as known findings (no TAGS clause = IMPLICIT; SEQUENCE OF element tag dropped).", "DESIGN.md §4 C03"),
+ "C05": (True, "fault_enumeration", "reference-model monitor: exhaustive enumeration of extensible shapes (kind x root size x every addition/group sequence x nesting x EXTENSIBILITY IMPLIED) + random grammar sets; non_exhaustive / extension_addition / extension_addition_group attributes and group structs of the syn projection compared with the model",
+         "Every shape of the bounded space is compiled and judged: extensible iff marker or EXTENSIBILITY IMPLIED; exactly the additions marked; each [[ ]] group one optional extension_addition_group member whose hoisted struct has exactly the grouped components in order. Exhaustive within the stated bounds, sampled beyond.",
+         "Trusted: oracle.rs, syn projection. For CHOICE, version brackets have no encoding effect: alternatives in brackets must appear, in order, as individual extension additions.", "DESIGN.md §4 C05"),
  "C06": (True, "fault_enumeration", "reference-model monitor (interval containment) over the syn projection of real compiler output; exhaustive enumeration of the 53-point boundary pairs x marker x 9 contexts + seeded random unions/intersections/serial constraints",
          "All (lower<=upper) pairs of the property's 53-point boundary set, with and without extension marker, are compiled in nine contexts and every emitted integer type token (resolved through delegate newtypes) must contain the permitted set and be arbitrary-precision when extensible or half-open; every integer literal of constants/DEFAULT functions must fit its declared or suffix type. Exhaustive for the stated space; random 2-operand combinations sampled.",
          "Trusted: interval model harness/src/iv.rs (brute-force unit test), syn projection. For serial constraints only 'both carry a marker' is treated as extensible; other marker placements are judged on containment only (X.680 50.8-50.10 latitude).", "DESIGN.md §4 C06"),
